@@ -26,6 +26,7 @@ import (
 	"sort"
 	"strconv"
 	"strings"
+	"sync"
 	"testing"
 	"testing/synctest"
 	"time"
@@ -39,7 +40,13 @@ import (
 	"github.com/attestantio/vouch/services/beaconcommitteesubscriber"
 	standardsubscriber "github.com/attestantio/vouch/services/beaconcommitteesubscriber/standard"
 	standardcontroller "github.com/attestantio/vouch/services/controller/standard"
+	"github.com/attestantio/vouch/mock"
+	mockaccountmanager "github.com/attestantio/vouch/services/accountmanager/mock"
+	mockbeaconblockproposer "github.com/attestantio/vouch/services/beaconblockproposer/mock"
+	"github.com/attestantio/vouch/services/cache"
+	mockcache "github.com/attestantio/vouch/services/cache/mock"
 	nullmetrics "github.com/attestantio/vouch/services/metrics/null"
+	mockproposalpreparer "github.com/attestantio/vouch/services/proposalpreparer/mock"
 	"github.com/google/uuid"
 	"github.com/prysmaticlabs/go-bitfield"
 	"github.com/rs/zerolog"
@@ -160,6 +167,25 @@ func desugar(in Input) ([]Op, map[string]bool) {
 	var out []Op
 	rs := rstate{}
 	for _, op := range in.Ops {
+		if op.Kind == "start" {
+			// the process starts: the constructor subscribes the current and the next epoch, each with
+			// the validators validating in THAT epoch; the two duties requests wait in the mock
+			tags["start-up"] = true
+			h := op
+			h.Install, h.Views = op.Views, nil
+			out = append(out, h)
+			for _, ep := range []uint64{op.Cur / in.SPE, op.Cur/in.SPE + 1} {
+				for i := range op.Views {
+					if v := &op.Views[i]; v.Epoch == ep {
+						out = append(out, Op{Kind: "sub", Cur: op.Cur, Epoch: ep, NoAccounts: v.NoAccounts, DutiesFail: v.DutiesFail,
+							SignFail: v.SignFail, Duties: v.Duties, Mid: v.Mid, Parked: true})
+						rs = trackLinear(in.SPE, rs, v.Mid)
+						break
+					}
+				}
+			}
+			continue
+		}
 		if op.Kind != "head" || !op.Rooted {
 			out = append(out, op)
 			rs = trackLinear(in.SPE, rs, []Op{op})
@@ -382,7 +408,9 @@ type env struct {
 	// the attester duties requests of Subscribe are parked until the driver releases them
 	views      map[uint64]*View
 	parked     []parkedReq
+	pmu        sync.Mutex // guards parked
 	failParked bool
+	starting   bool // the controller's constructor is running
 }
 
 type parkedReq struct {
@@ -392,6 +420,8 @@ type parkedReq struct {
 
 // release lets the first parked duties request of the epoch go on; false if there is none.
 func (e *env) release(epoch uint64) bool {
+	e.pmu.Lock()
+	defer e.pmu.Unlock()
 	for i, p := range e.parked {
 		if p.epoch == epoch {
 			e.parked = append(e.parked[:i:i], e.parked[i+1:]...)
@@ -414,7 +444,9 @@ func (e *env) AttesterDuties(ctx context.Context, opts *api.AttesterDutiesOpts) 
 	e.meanwhile()
 	if e.views != nil {
 		ch := make(chan struct{})
+		e.pmu.Lock() // the two start-up subscriptions of the constructor ask side by side
 		e.parked = append(e.parked, parkedReq{uint64(opts.Epoch), ch})
+		e.pmu.Unlock()
 		select {
 		case <-ch:
 		case <-ctx.Done():
@@ -427,10 +459,18 @@ func (e *env) AttesterDuties(ctx context.Context, opts *api.AttesterDutiesOpts) 
 	if e.dutiesFail {
 		return nil, errors.New("scripted duties failure")
 	}
-	out := make([]*apiv1.AttesterDuty, len(e.duties))
-	for i, d := range e.duties {
+	// like the beacon node: the duties of the validators asked about, of nobody else
+	asked := map[phase0.ValidatorIndex]bool{}
+	for _, i := range opts.Indices {
+		asked[i] = true
+	}
+	out := make([]*apiv1.AttesterDuty, 0, len(e.duties))
+	for _, d := range e.duties {
+		if !asked[d.ValidatorIndex] {
+			continue
+		}
 		c := *d
-		out[i] = &c
+		out = append(out, &c)
 	}
 	return &api.Response[[]*apiv1.AttesterDuty]{Data: out, Metadata: map[string]any{}}, nil
 }
@@ -537,7 +577,17 @@ func (c ctrlDuties) AttesterDuties(ctx context.Context, opts *api.AttesterDuties
 	if v == nil || v.DutiesFail {
 		return nil, errors.New("scripted duties failure")
 	}
-	return &api.Response[[]*apiv1.AttesterDuty]{Data: apiDuties(v.Duties), Metadata: map[string]any{}}, nil
+	asked := map[phase0.ValidatorIndex]bool{}
+	for _, i := range opts.Indices {
+		asked[i] = true
+	}
+	var out []*apiv1.AttesterDuty
+	for _, d := range apiDuties(v.Duties) {
+		if asked[d.ValidatorIndex] {
+			out = append(out, d)
+		}
+	}
+	return &api.Response[[]*apiv1.AttesterDuty]{Data: out, Metadata: map[string]any{}}, nil
 }
 func (c ctrlDuties) ProposerDuties(_ context.Context, _ *api.ProposerDutiesOpts) (*api.Response[[]*apiv1.ProposerDuty], error) {
 	return nil, errors.New("no proposer duties in this harness")
@@ -571,6 +621,10 @@ func (c ctrlAccounts) ValidatingAccountsForEpochByIndex(_ context.Context, _ pha
 	return res, nil
 }
 func (c ctrlAccounts) SyncCommitteeAccountsForEpoch(_ context.Context, _ phase0.Epoch) (map[phase0.ValidatorIndex]e2wtypes.Account, error) {
+	if c.e.starting {
+		// the constructor asks (and gives up if the account manager fails): nobody is in a sync committee
+		return map[phase0.ValidatorIndex]e2wtypes.Account{}, nil
+	}
 	return nil, errors.New("not used")
 }
 func (c ctrlAccounts) SyncCommitteeAccountsForEpochByIndex(_ context.Context, _ phase0.Epoch, _ []phase0.ValidatorIndex) (map[phase0.ValidatorIndex]e2wtypes.Account, error) {
@@ -661,10 +715,12 @@ func runCase(t *testing.T, in Input) (obs []Obs) {
 	defer func() {
 		// whatever happens, no duties request stays parked when the bubble ends
 		e.failParked = true
+		e.pmu.Lock()
 		for _, p := range e.parked {
 			close(p.ch)
 		}
 		e.parked = nil
+		e.pmu.Unlock()
 	}()
 	ct := mocks.NewChainTime(in.SPE)
 	sched := mocks.NewRecScheduler()
@@ -701,7 +757,8 @@ func runCase(t *testing.T, in Input) (obs []Obs) {
 	}
 	// One controller for the whole history.  NewForVerif (rather than NewForVerifC14) because
 	// HandleHeadEvent reads slotsPerEpoch; no tickers, no event subscriptions, no start-up duties.
-	ctrl := standardcontroller.NewForVerif(&standardcontroller.VerifDeps{
+	var ctrl *standardcontroller.Service
+	ctrl = standardcontroller.NewForVerif(&standardcontroller.VerifDeps{
 		LogLevel:                     level,
 		ChainTime:                    ct,
 		Scheduler:                    sched,
@@ -761,10 +818,12 @@ func runCase(t *testing.T, in Input) (obs []Obs) {
 			return
 		}
 		e.failParked = true
+		e.pmu.Lock()
 		for _, p := range e.parked {
 			close(p.ch)
 		}
 		e.parked = nil
+		e.pmu.Unlock()
 		synctest.Wait()
 		e.failParked = false
 		e.views = nil
@@ -894,6 +953,9 @@ func runCase(t *testing.T, in Input) (obs []Obs) {
 			e.meanwhile() // (only if Attest was never called)
 			o := Obs{Kind: "att", Jobs: []ObsJob{}}
 			for _, j := range sched.Snapshot() {
+				if j.Periodic {
+					continue // the tickers of a controller built by the public constructor
+				}
 				if strings.HasPrefix(j.Name, "Attestations for slot ") || strings.HasPrefix(j.Name, "Prepare for epoch ") {
 					// the attestation jobs a refresh re-creates and the driver's own marker of an
 					// epoch that is not prepared yet: not aggregation jobs
@@ -924,6 +986,19 @@ func runCase(t *testing.T, in Input) (obs []Obs) {
 				return o.Jobs[i].Comm < o.Jobs[j].Comm
 			})
 			obs = append(obs, o)
+		case "start":
+			// a fresh process: the public constructor, with the same parts (and the parts this property
+			// does not look at mocked away).  From now on this is the controller of the history.
+			ct.SetSlot(op.Cur)
+			flush()
+			e.views = map[uint64]*View{}
+			for i := range op.Install {
+				e.views[op.Install[i].Epoch] = &op.Install[i]
+			}
+			e.starting = true
+			ctrl = startController(ctx, level, in, e, ct, sched, agg, subscriber)
+			synctest.Wait()
+			e.starting = false
 		case "head":
 			ct.SetSlot(op.Cur)
 			// the beacon node's "head" event, delivered as the events provider would: the real
@@ -993,6 +1068,53 @@ func runCase(t *testing.T, in Input) (obs []Obs) {
 	}
 	flush()
 	return obs
+}
+
+// startSpec is the chain specification as the controller's constructor reads it.
+type startSpec struct{ spe uint64 }
+
+func (c startSpec) Spec(_ context.Context, _ *api.SpecOpts) (*api.Response[map[string]any], error) {
+	return &api.Response[map[string]any]{Data: map[string]any{
+		"SECONDS_PER_SLOT": slotMs * time.Millisecond,
+		"SLOTS_PER_EPOCH":  c.spe,
+	}, Metadata: map[string]any{}}, nil
+}
+
+// startController is a process start: the public constructor of the controller over the parts of the
+// history (real subscriber, real aggregator, recording scheduler, the scripted account manager and
+// node).  It subscribes to events (never delivered by the provider: the driver calls HandleHeadEvent),
+// starts its tickers (periodic jobs of the recording scheduler, never fired) and launches the start-up
+// work: attestations (jobs, left alone) and the beacon committee subscriptions of the current and the
+// next epoch, whose duties requests wait in the mock.
+func startController(ctx context.Context, level zerolog.Level, in Input, e *env, ct *mocks.ChainTime, sched *mocks.RecScheduler,
+	agg attestationaggregator.Service, subscriber beaconcommitteesubscriber.Service) *standardcontroller.Service {
+	svc, err := standardcontroller.New(ctx,
+		standardcontroller.WithLogLevel(level),
+		standardcontroller.WithMonitor(nullmetrics.New()),
+		standardcontroller.WithSpecProvider(startSpec{in.SPE}),
+		standardcontroller.WithChainTimeService(ct),
+		standardcontroller.WithProposerDutiesProvider(ctrlDuties{e}),
+		standardcontroller.WithAttesterDutiesProvider(ctrlDuties{e}),
+		standardcontroller.WithEventsProvider(mocks.NewEventsProvider()),
+		standardcontroller.WithValidatingAccountsProvider(ctrlAccounts{e}),
+		standardcontroller.WithProposalsPreparer(mockproposalpreparer.New()),
+		standardcontroller.WithScheduler(sched),
+		standardcontroller.WithAttester(e),
+		standardcontroller.WithBeaconBlockProposer(mockbeaconblockproposer.New()),
+		standardcontroller.WithBeaconCommitteeSubscriber(subscriber),
+		standardcontroller.WithAttestationAggregator(agg),
+		standardcontroller.WithAccountsRefresher(mockaccountmanager.NewRefresher()),
+		standardcontroller.WithBlockToSlotSetter(mockcache.New(map[phase0.Root]phase0.Slot{}).(cache.BlockRootToSlotSetter)),
+		standardcontroller.WithBeaconBlockHeadersProvider(mock.NewBeaconBlockHeadersProvider()),
+		standardcontroller.WithSignedBeaconBlockProvider(mock.NewSignedBeaconBlockProvider()),
+		standardcontroller.WithMaxProposalDelay(slotMs*time.Millisecond/3),
+		standardcontroller.WithMaxAttestationDelay(slotMs*time.Millisecond/3),
+		standardcontroller.WithAttestationAggregationDelay(time.Duration(in.DelayMs)*time.Millisecond),
+	)
+	if err != nil {
+		panic("controller constructor: " + err.Error())
+	}
+	return svc
 }
 
 // storedOf lists the stored subscription information of one epoch, sorted by (slot, committee).
@@ -1067,7 +1189,30 @@ func term(id uint64, in Input, obs []Obs) string {
 	// the history as it happened: an operation with the operations that completed while it was waiting
 	// for its outside call; Check.C14 puts them in the order in which they take effect ([linearise])
 	ops := make([]string, 0, len(in.Ops))
+	viewTerm := func(v View) string {
+		ds := make([]string, len(v.Duties))
+		for k, d := range v.Duties {
+			ds[k] = dutyTerm(d)
+		}
+		mids := []string{}
+		for _, m := range linear(v.Mid) {
+			mids = append(mids, opTerm(m))
+		}
+		return App("mkView", N(v.Epoch), Bool(v.Unprepared), Bool(v.AcctFail), Bool(v.NoAccounts), Bool(v.DutiesFail),
+			nlist(v.SignFail), List(ds), List(mids))
+	}
+	startTerm := ""
 	for _, op := range in.Ops {
+		if op.Kind == "start" {
+			// the process starts at slot Cur: Model.C14_Start.start_events says what the constructor
+			// subscribes, from what the account manager and the node answer about each epoch
+			vs := make([]string, len(op.Views))
+			for i, v := range op.Views {
+				vs[i] = viewTerm(v)
+			}
+			startTerm = N(op.Cur) + " " + List(vs)
+			continue
+		}
 		if op.Kind == "head" && op.Rooted {
 			// a head event with duty dependent roots of its own and the answers of the rest of the
 			// world afterwards: Model.C14_Reorg.expand decides what it launches
@@ -1146,6 +1291,10 @@ func term(id uint64, in Input, obs []Obs) string {
 		}
 	}
 	pr := App("mkParams", N(slotMs), N(in.DelayMs), N(in.SPE), N(in.Target))
+	if startTerm != "" {
+		evs := "(start_events " + pr + " " + startTerm + " ++ " + List(ops) + ")"
+		return Record("c_id", N(id), "c_pr", pr, "c_ops", App("expand", pr, "rinit", evs), "c_obs", List(os))
+	}
 	return Record("c_id", N(id), "c_pr", pr, "c_ops", App("expand", pr, "rinit", List(ops)), "c_obs", List(os))
 }
 
@@ -1878,6 +2027,91 @@ func genReorg(r *Rand, trace bool) Input {
 	return in
 }
 
+// genStart: the process starts (the public constructor) in some slot of an epoch, usually past the
+// point at which the next epoch would have been prepared by the epoch ticker; the validators of the
+// next epoch are those of the current one with some activated (new in the next epoch), some exited
+// (gone in the next epoch), or just the same; afterwards the two epochs are attested.
+func genStart(r *Rand, trace bool) Input {
+	in := Input{SPE: 8, Target: 16, DelayMs: 8000, Concurrency: int64(r.Range(1, 4)), Trace: trace}
+	switch r.Intn(6) {
+	case 0:
+		in.SPE = 4
+	case 1:
+		in.SPE = 32
+	}
+	if r.Chance(1, 8) {
+		in.Target = uint64(r.Range(1, 5))
+	}
+	if r.Chance(1, 4) {
+		in.DelayMs = uint64(r.Range(1, 12000))
+	}
+	spe := in.SPE
+	epoch := uint64(r.Intn(40))
+	if r.Chance(1, 6) {
+		epoch = 0
+	}
+	cur := epoch*spe + spe/2 + uint64(r.Intn(int(spe-spe/2)))
+	if r.Chance(1, 4) {
+		cur = epoch*spe + uint64(r.Intn(int(spe)))
+	}
+	sE, sN := genSub(r, &in, epoch), genSub(r, &in, epoch+1)
+	sE.Cur, sN.Cur = cur, cur
+	// who validates in the next epoch
+	mode := r.Intn(10)
+	used := map[uint64]bool{}
+	for _, d := range sN.Duties {
+		used[d.Val] = true
+	}
+	var pool []uint64
+	for _, d := range sE.Duties {
+		if !used[d.Val] {
+			used[d.Val] = true
+			pool = append(pool, d.Val)
+		}
+	}
+	activated := 0
+	for i := range sN.Duties {
+		keep := mode >= 3 && r.Chance(1, 3) // a validator that is not validating in the start-up epoch
+		if mode >= 3 && i == len(sN.Duties)-1 && activated == 0 {
+			keep = true
+		}
+		if keep || len(pool) == 0 {
+			activated++
+			continue
+		}
+		sN.Duties[i].Val, pool = pool[0], pool[1:]
+	}
+	vE := View{Epoch: epoch, NoAccounts: sE.NoAccounts, DutiesFail: sE.DutiesFail, SignFail: sE.SignFail, Duties: sE.Duties}
+	vN := View{Epoch: epoch + 1, NoAccounts: sN.NoAccounts, DutiesFail: sN.DutiesFail, SignFail: sN.SignFail, Duties: sN.Duties}
+	start := Op{Kind: "start", Cur: cur, Views: []View{vE, vN}}
+	if r.Chance(1, 4) {
+		start.Views = []View{vN, vE}
+	}
+	in.Ops = append(in.Ops, start)
+	rootSeq := uint64(r.Range(1, 1000)) * 100
+	var subs []Op
+	for _, s := range []Op{sE, sN} {
+		if !s.DutiesFail {
+			subs = append(subs, s)
+		}
+	}
+	for n := r.Range(1, 3); n > 0 && len(subs) > 0; n-- {
+		which := subs
+		if r.Chance(1, 2) {
+			which = subs[len(subs)-1:] // the next epoch
+		}
+		a := genAtt(r, &in, which, &rootSeq)
+		a.Mid, a.Adv = nil, false
+		if r.Chance(1, 4) {
+			h := genHead(r, &in, epoch, &a)
+			h.Rooted, h.Views = false, nil
+			in.Ops = append(in.Ops, h)
+		}
+		in.Ops = append(in.Ops, a)
+	}
+	return in
+}
+
 func gen(r *Rand, trace bool) Input {
 	in := Input{SPE: 8, Target: 16, DelayMs: 8000, Concurrency: int64(r.Range(1, 4)), Trace: trace}
 	switch r.Intn(6) {
@@ -2037,6 +2271,8 @@ func TestC14(t *testing.T) {
 		r := rng.Fork()
 		if r.Chance(1, 5) {
 			ins = append(ins, genReorg(r, traceTier && i%2 == 1))
+		} else if r.Chance(1, 8) {
+			ins = append(ins, genStart(r, traceTier && i%2 == 1))
 		} else {
 			ins = append(ins, gen(r, traceTier && i%2 == 1))
 		}
